@@ -6,6 +6,11 @@ ALL = ["C%02d" % i for i in range(1, 21)]
 
 # id -> (level category, engine, technique, level text, level note, design ref)
 CLAIMED = {
+ "C08": ("model_checking", "E2 enumeration over nodes x start selections x path variants",
+         "bounded exhaustive enumeration of every node of the data trees x start selection x path variant, each Find executed on the real code over a recording store and checked for identity, typed keys, content, render-back and absence of writes",
+         "For every container, list, list entry and leaf of a tree holding 14 string keys with reserved characters (/ , = % space + .. ? # %41, non-ASCII, empty), int32/enumeration/boolean keys and compound-key lists nested in lists: Find from the root (plain, module-qualified, trailing slash, with query), from every non-list ancestor, and through ../ steps from three other nodes. The selection must be on exactly the addressed schema node (pointer identity) with typed keys and the model subtree as content, the rendered Path must find the same node again, absent keys/containers must give (nil, nil), unknown names a not-found error, and the recording store must see no write or edit callback.",
+         "trusted: harness percent-encoding of path segments (everything but unreserved characters is %XX-encoded); a raw '+' in a path is not used",
+         "DESIGN.md section 7 C08"),
  "C07": ("model_checking", "E2 enumeration over trees x targets x parameter values",
          "bounded exhaustive enumeration of data trees, target selections and query parameter values (and pairs), each constrained read executed on the real code and compared with the projection computed by a reference model from the unconstrained tree",
          "For two full trees (lists of 4 entries, nested lists of 3, config/non-config mix, defaults) and every generated tree to the size bound, from every target selection present (root, containers, lists, entries): every content value, every depth 1..schema depth+2, every fields and fc.xfields expression over the schema paths below the target (single, multi-segment, alternatives, grouped, nested groups, unknown names, malformed brackets), with-defaults, every fc.range window 0<=s<=e<=n+1 and open-ended on top-level and nested lists, fc.max-node-count 0..containers+1, the invalid values of each, and all pairs of parameters; applied through Selection.Constrain and Find(path?query). The read is captured by a reference store and must equal the model projection (intersection for pairs), one end-row convention must explain all windows, invalid values must be errors, unknown/malformed field expressions must not panic, and the source data must be unchanged.",
